@@ -127,8 +127,8 @@ impl Property for C14 {
     }
     fn budget(&self, tier: Tier) -> Budget {
         match tier {
-            Tier::Quick => Budget { cases: 12_000, min_len: 8, max_len: 300 },
-            Tier::Thorough => Budget { cases: 600_000, min_len: 8, max_len: 400 },
+            Tier::Quick => Budget { cases: 50000, min_len: 8, max_len: 300 },
+            Tier::Thorough => Budget { cases: 1200000, min_len: 8, max_len: 400 },
         }
     }
 
